@@ -189,6 +189,13 @@ pub fn run_seq(trace: &Trace, skip: &BTreeSet<usize>, opts: &SeqOpts) -> SeqOutc
         reg.arm_weigh_panic(n as i64);
         rep.fault_injecting = true;
     }
+    crate::types::arm_key_panics(
+        trace.callback_faults.hash_panic_at.map(|n| n as i64).unwrap_or(-1),
+        trace.callback_faults.eq_panic_at.map(|n| n as i64).unwrap_or(-1),
+    );
+    if trace.callback_faults.hash_panic_at.is_some() || trace.callback_faults.eq_panic_at.is_some() {
+        rep.fault_injecting = true;
+    }
     let unsync = cfg.kind == Kind::Unsync;
     let mut model = Model::new(cfg);
     let synced_shape = every_op_synced(ops, skip);
@@ -327,7 +334,9 @@ pub fn run_seq(trace: &Trace, skip: &BTreeSet<usize>, opts: &SeqOpts) -> SeqOutc
         };
 
         // --- execute ----------------------------------------------------------------
+        crate::types::set_in_op(true);
         let res = catch_unwind(AssertUnwindSafe(|| exec(&mut sut, op, &reg, &clock)));
+        crate::types::set_in_op(false);
         let st = hooks.end_op();
         let result = match res {
             Ok(r) => r,
@@ -450,13 +459,13 @@ pub fn run_seq(trace: &Trace, skip: &BTreeSet<usize>, opts: &SeqOpts) -> SeqOutc
         let snap = match catch_unwind(AssertUnwindSafe(|| sut.snapshot(base, cfg.weigher))) {
             Ok(s) => s,
             Err(p) => {
-                rep.viol(
-                    "C08.internal-panic",
-                    format!("snapshot after {} panicked: {}", op.name(), payload_str(&p)),
-                    i,
-                    None,
-                );
-                dead_run = true;
+                let msg = payload_str(&p);
+                // a caller callback that panicked inside a maintenance run leaves the deques
+                // lock poisoned; that is the caller's doing (see `relaxed` above)
+                if !(relaxed && msg.contains("lock poisoned")) {
+                    rep.viol("C08.internal-panic", format!("snapshot after {} panicked: {}", op.name(), msg), i, None);
+                    dead_run = true;
+                }
                 continue;
             }
         };
